@@ -5,7 +5,7 @@ import pyspec
 from . import C01, common
 
 ID = "C20"
-LEVEL = "other"
+LEVEL = "proof"
 RULE = ("SetBitsExp over word slices of length 0..40 with every zero-word pattern (leading/low/interior/all-zero), words with "
         "leading zero digits, exponents over the whole int64 range incl. +-2^63 edges, receiver precisions {0,1,..} smaller "
         "than the slice; BitsExp/MantExp/SetMantExp on all classes with exponent offsets near the int32 limits, aliasing "
